@@ -238,7 +238,8 @@ def geometry_file_case(obs, rng, spec, tmp, cli_utils):
     elif variant == 'not-geometry':
         path = stem + pick(rng, ['.json', '.geojson'])
         with open(path, 'w') as f:
-            json.dump(pick(rng, [{'a': 1}, [1, 2, 3], {'type': 'Nothing', 'coordinates': [1, 2]}, 5, {'type': 'Polygon'}]), f)
+            # (a FeatureCollection of several features is valid GeoJSON but does not denote ONE geometry)
+            json.dump(pick(rng, [{'a': 1}, [1, 2, 3], {'type': 'Nothing', 'coordinates': [1, 2]}, 5, {'type': 'Polygon'}, {'type': 'FeatureCollection', 'features': [{'type': 'Feature', 'properties': {}, 'geometry': {'type': 'Polygon', 'coordinates': [[[100, -30], [120, -30], [120, -10], [100, -10], [100, -30]]]}}, {'type': 'Feature', 'properties': {}, 'geometry': {'type': 'Point', 'coordinates': [140, -20]}}]}]), f)
     elif variant == 'missing':
         path = stem + '.geojson'
     else:
@@ -702,7 +703,7 @@ def op_user_error(env):
             with open(arg, 'w') as f:
                 f.write('{"type": "Polygon", "coordinates": [[[1, 2], [3')
         elif kind == 'clip:json-not-geometry':
-            arg = pick(rng, ['{"type": "Nothing"}', '[1, 2, 3, 4]', '{"a": 1}', '{"type": "Polygon"}'])
+            arg = pick(rng, ['{"type": "Nothing"}', '[1, 2, 3, 4]', '{"a": 1}', '{"type": "Polygon"}', json.dumps({'type': 'FeatureCollection', 'features': [{'type': 'Feature', 'properties': {}, 'geometry': {'type': 'Polygon', 'coordinates': [[[100, -30], [120, -30], [120, -10], [100, -10], [100, -30]]]}}, {'type': 'Feature', 'properties': {}, 'geometry': {'type': 'Point', 'coordinates': [140, -20]}}]})])
         elif kind == 'clip:too-few-numbers':
             arg = ','.join(box_text.split(',')[:3])
         elif kind == 'clip:missing-input':
